@@ -119,6 +119,12 @@ def run(tier: str, seed: int, rep: Report, model: Model) -> dict:
             continue
         if four["fn"]["v"] == "identity":
             continue
+        if ref["v"] == "undefined" and ref.get("kind") in ("ValueError", "ZeroDivisionError", "OverflowError"):
+            # an expression axis without arithmetic value under these sizes: the arithmetic exception that escapes is the known
+            # finding K1 (C08); pydantic re-wraps a ValueError raised inside a validator as its own ValidationError, which is
+            # pydantic's documented behaviour and not a difference between the entry points' verdicts
+            rep.count("arithmetically_undefined_not_compared")
+            continue
         canon = {f: tuple(str(four[f].get(k)) for k in KEYS) for f in four}
         if len(set(canon.values())) != 1:
             rep.violation({"what": "the four entry points disagree on identical inputs", **rec})
